@@ -3500,6 +3500,16 @@ def cli_main():
         path = os.path.join(root, 'definitions')
         include_dirs.append(path)
 
+    # validate the hex offset up front: a bad one must not cost the user the files already on disk
+    hex_offset = None
+    if args.hex_offset:
+        try:
+            hex_offset = int(args.hex_offset, base=0)
+        except ValueError:
+            raise SystemExit('invalid hex offset: {}'.format(args.hex_offset))
+        if not 0 <= hex_offset < 2**32:
+            raise SystemExit('invalid hex offset: {}'.format(args.hex_offset))
+
     constants = {}
     labels = {}
     try:
@@ -3516,6 +3526,10 @@ def cli_main():
         for d in include_dirs:
             log.info('search: {}'.format(d))
 
+    # Intel HEX addresses are 32 bits wide: refuse before anything is written
+    if hex_offset is not None and hex_offset + len(binary) > 2**32:
+        raise SystemExit('hex offset {} leaves no room for {} bytes'.format(args.hex_offset, len(binary)))
+
     if args.labels:
         lines = ['{} 0x{:08x}\n'.format(k, v) for k, v in labels.items()]
         with open(args.labels, 'w') as f:
@@ -3525,15 +3539,9 @@ def cli_main():
         out_bin.write(binary)
 
     # output an additional file in the Intel HEX format at the given offset
-    if args.hex_offset:
+    if hex_offset is not None:
         from intelhex import bin2hex
-
-        try:
-            offset = int(args.hex_offset, base=0)
-        except:
-            raise SystemExit('invalid hex offset: {}'.format(args.hex_offset))
-
-        bin2hex(args.output, args.output + '.hex', offset)
+        bin2hex(args.output, args.output + '.hex', hex_offset)
 
 
 if __name__ == '__main__':
